@@ -16,5 +16,7 @@ theorem coerce_response_name : @Generated.Funcs.coerce_response_name = @Pinned.F
 theorem to_camel_case : @Generated.Funcs.to_camel_case = @Pinned.Funcs.to_camel_case := rfl
 theorem fix_name_segment : @Generated.Funcs.fix_name_segment = @Pinned.Funcs.fix_name_segment := rfl
 theorem fix_field_path : @Generated.Funcs.fix_field_path = @Pinned.Funcs.fix_field_path := rfl
+theorem field_header_disambiguated : @Generated.Funcs.field_header_disambiguated = @Pinned.Funcs.field_header_disambiguated := rfl
+theorem routing_param_disambiguated_field : @Generated.Funcs.routing_param_disambiguated_field = @Pinned.Funcs.routing_param_disambiguated_field := rfl
 
 end GapicModel.Bridge.Funcs
